@@ -9,6 +9,9 @@ Driver part for C33 (directory lock).  Ops:
                        after `done` the contender calls Release a second time:
                        → noop (the handle was cleared) | rerel1, rerel2, redone (the sequence runs again)
   dl.stat              → exists | absent   (the LOCK file)
+  dl.dbclose           a real DB is opened on a fresh directory, written to and closed; on every file
+                       operation of the closing DB a second contender tries AcquireDirLock
+                       → ok (never admitted before Close returned, admitted afterwards) | intruder
 -/
 import Driver.Lib
 import NoKVModel.Base.Cfg
@@ -35,6 +38,7 @@ def setCfg (d : DSt) (kv : String) : Option DSt :=
       | _ => none
     | "dirlock.acquireRechecks" => do let b ← boolOfString? v; pure { d with c := { d.c with acquireRechecks := b } }
     | "dirlock.releaseClearsOnError" => do let b ← boolOfString? v; pure { d with c := { d.c with releaseClearsOnError := b } }
+    | "dirlock.closeReleasesLast" => do let b ← boolOfString? v; pure { d with c := { d.c with closeReleasesLast := b } }
     | "dirlock.acquireShape" | "dirlock.dbUsesLock" => if v == "true" then some d else none
     | _ => if k.startsWith "dirlock." then none else some d
   | _ => none
@@ -48,12 +52,35 @@ def pcName : PC → String
   | .failed => "failed"
   | .done => "done"
   | .rerel k => s!"rerel{k + 1}"
+  | .closing k => s!"closing{k}"
+  | .closingAfter k => s!"closingafter{k}"
 
 /-- specification side: how many contenders hold the directory -/
 def holders (d : DSt) : Nat :=
   (d.tids.filter fun t => match d.s.thr t with
     | some th => th.pc == PC.held
     | none => false).length
+
+/-- a whole AcquireDirLock by a fresh contender: does it succeed? -/
+def probeAcquire (c : DLCfg) (s : St) (tid : Nat) : Bool :=
+  match (Conc.run (sys c) s [.spawn tid, .run tid, .run tid, .run tid]).thr tid with
+  | some th => th.pc == PC.held
+  | none => false
+
+/-- the DB is contender 0; after each step of its Close, while it still uses the directory (storage
+not completely closed), a fresh contender tries to acquire it -/
+def dbCloseIntruder (c : DLCfg) : Nat → St → Nat → Bool
+  | 0, _, _ => false
+  | fuel + 1, s, tid =>
+    match DirLock.step c s (.run 0) with
+    | none => false
+    | some s' =>
+      match s'.thr 0 with
+      | some th =>
+        if th.pc == PC.done then false
+        else if usingPC th.pc && probeAcquire c s' tid then true
+        else dbCloseIntruder c fuel s' (tid + 1)
+      | none => false
 
 def step (d : DSt) (toks : List String) : DSt × String :=
   match toks with
@@ -98,6 +125,7 @@ def step (d : DSt) (toks : List String) : DSt × String :=
         (d', (if holders d' ≥ 2 then "multi" else "ok") ++ ":" ++ nm ++ "\tok:*")
       | none => (d, "ok:finished\tok:*")
     | none => (d, "bad-op")
+  | ["dl.dbclose"] => (d, (if dbCloseIntruder d.c 16 (Conc.run (sys d.c) initSt [.spawnDB 0, .run 0, .run 0, .run 0]) 1 then "intruder" else "ok") ++ "\tok")
   | ["dl.stat"] => (d, (if d.s.name.isSome then "exists" else "absent") ++ "\t*")
   | _ => (d, "bad-op")
 
